@@ -17,18 +17,26 @@ REGISTRATION = {
     "category": "proof",
     "text": "Kernel-checked theorems about an executable model of greedy/topK (sort branch and an exact mirror of the "
             "container/heap branch)/temperature/softmax/topP/minP and the cumulative binary-search pick, for every carrier "
-            "whose comparison is a strict weak order (what float32 gives while no NaN arises), for the pinned and the "
-            "repaired (max-shift) variant: argmax at temperature 0, and a token (never an error, never -Inf) as soon as "
+            "whose comparison is a strict weak order and — since no carrier with a NaN is one (X_not_OrdLaws) — in `_on` form "
+            "for every carrier whose comparison is a strict weak order on its non-NaN values (what IEEE gives), under the "
+            "decidable guards `noNaN logits` / `runGood` (no NaN is ever compared in the run), instantiated on a witness "
+            "carrier with NaN and +-Inf; for the pinned and the "
+            "repaired (max-shift) variant, the tree's variant being probed on every run and pinned by Tie.C18.tree_is_fixed: "
+            "argmax at temperature 0, and a token (never an error, never -Inf) as soon as "
             "some logit is above -Inf; topK returns tokens of its input on both branches, so "
             "a returned id is always an index into the logits (unconditional); topK is a correct top-k on both "
             "branches (the heap branch via the heap order of Init/Push/Pop/up/down), hence fewer than k logits are "
             "strictly larger than the returned one (no run contract); every call of every history, seeded or "
-            "unseeded, satisfies the single-call theorems; each filter keeps a non-empty prefix and "
+            "unseeded, satisfies the single-call theorems; at temperature > 0 the 'all logits are -Inf' error is only "
+            "raised when it is true; top-p keeps the smallest non-empty prefix whose accumulated mass exceeds p (an "
+            "off-by-one variant provably violates the statement); each filter keeps a non-empty prefix and "
             "minP is exactly the threshold filter; the pick is the first index reaching the target, never a "
             "zero-probability entry, never an index panic; the picked token lies in minP(topP(topK)) and comes from a "
             "logit that is not -Inf; a history of calls on one sampler has no state but the generator (the i-th result "
             "equals the single-call result with the PCG advanced by the number of drawing calls before it) and is a "
-            "function of (seed, params, logits); PCG-DXSM modelled bit-exactly; with a grammar, a call returns either the "
+            "function of (seed, params, logits) (reproducible_under_seed); PCG-DXSM modelled bit-exactly; every production "
+            "call of sample.NewSampler passes the request's options in role order into a sampler of its own "
+            "(go/ast fact consumed by Tie.C18.callsites_wired); with a grammar, a call returns either the "
             "accepted first pick or exactly Sample on a fresh token list from the original logits with the grammar mask "
             "applied and a new random number, so the retry is admissible w.r.t. the masked logits and accepted by the "
             "grammar. The same generic code is run at IEEE "
@@ -150,6 +158,7 @@ REQUIRED_BRANCHES = [
     "grammar_path_fast", "grammar_path_slow", "large_vocab_histories", "env_repro_histories",
     # the comparisons / monitors themselves must have run
     "l2_membership_checked", "contract_ok", "hist_ops", "ghist_ops", "large_hist_ops", "l2_nan_weighted_checked",
+    "long_histories",
 ]
 # (skipped, total, maximal share): a skip that grows beyond its usual share means a monitor is being bypassed
 BOUNDED_SKIPS = [
@@ -183,7 +192,8 @@ def regenerate_callsites(ctx):
     """Tie 1: every non-test call of sample.NewSampler, argument roles resolved by go/ast (harness/cmd/c18facts)."""
     import subprocess
     env = dict(os.environ)
-    env.update({"C18_REPO": core.REPO, "GOFLAGS": "-mod=mod", "GOPROXY": "off"})
+    env.update(core.GO_ENV)          # the harness toolchain, like every go test of the check
+    env.update({"C18_REPO": core.REPO})
     p = subprocess.run(["go", "run", os.path.join(core.ROOT, "harness", "cmd", "c18facts", "main.go")],
                        cwd="/", env=env, stdout=subprocess.PIPE, stderr=subprocess.STDOUT, text=True)
     rows, sites = [], []
@@ -240,6 +250,7 @@ def run(ctx):
     ctx.oracle = big_stack_oracle(ctx)
     regenerate_callsites(ctx)
     env = {"VERIF_N": ctx.scale(1500, 30000), "VERIF_NG": ctx.scale(250, 5000), "VERIF_NL": ctx.scale(1, 4),
+           "VERIF_NLONG": ctx.scale(2, 40),
            "VERIF_CORPUS": core.ROOT + "/corpus/C18"}
     if FIX_OVERRIDE:
         env["VERIF_C18_FIX"] = FIX_OVERRIDE
